@@ -85,7 +85,12 @@ pub fn run_probe(dir: &str, probe: u64) {
             let last: u64 = init.split_whitespace().find_map(|w| w.strip_prefix("last=")).and_then(|v| v.split(':').next()).and_then(|v| v.parse().ok()).unwrap_or(0);
             let mut ok = true;
             let mut why = String::new();
-            if probe > 0 {
+            // the snapshot this start would load (the last one of the catalogue) must be there
+            if ask_session(s, "lastsnap").contains("missing") {
+                ok = false;
+                why = "the-last-snapshot-of-the-catalogue-has-no-file".to_string();
+            }
+            if ok && probe > 0 {
                 let r = ask_session(s, &format!("b {} 9 {} 7 900000", last + 1, probe));
                 if r != "ok" {
                     ok = false;
